@@ -486,7 +486,7 @@ def main(tier):
     return code
 
 
-def replay(obj):
+def replay_case(obj):
     if "behaviour" not in obj:
         return True, obj
     nest = obj.get("nest")
